@@ -369,6 +369,10 @@ class Exec(Path):
                 self.close_file(h)
 
     def close_file(self, h):
+        if not h.closed and getattr(h, "pending", None) is not None:
+            from .fsmodel import flush_file
+            h.closed = True
+            flush_file(self, h)
         h.closed = True
         hook = getattr(self.engine, "on_close", None)
         if hook:
@@ -1079,6 +1083,8 @@ class Exec(Path):
             x = self.unbox(x)
         if isinstance(x, VStr):
             return x
+        if isinstance(x, VRef) and isinstance(self.heap.get(x.rid), HObj) and "pathstr" in self.heap[x.rid].fields:
+            return self.heap[x.rid].fields["pathstr"]
         if isinstance(x, VInt):
             t = x.t
             return VStr(z3.If(t >= 0, z3.IntToStr(t), z3.Concat(z3.StringVal("-"), z3.IntToStr(-t))))
@@ -1392,7 +1398,18 @@ class Exec(Path):
             if isinstance(h, HList):
                 if h.items is not None:
                     return z3.Or([self.equals(item, x) for x in h.items] + [z3.BoolVal(False)])
-                return z3.Contains(self.list_seq(h), z3.Unit(self.box(item)))
+                if "listdir_of" in h.tag:
+                    # membership in os.listdir(d) is existence of join(d, name) in the ghost file system
+                    from .fsmodel import fs_of, kind_at, str_term, ABSENT
+                    fs = fs_of(self)
+                    child = self.engine.uf("pathjoin", S, S, S)(h.tag["listdir_of"], str_term(self, item))
+                    return kind_at(self, fs.kind, child) != ABSENT
+                seq = self.list_seq(h)
+                u = z3.Unit(self.box(item))
+                for out, src in self.ghost.get("sorted_pairs", []):
+                    if out.eq(seq):
+                        self.assume(z3.Contains(out, u) == z3.Contains(src, u))      # sorted() permutes: same members
+                return z3.Contains(seq, u)
             if isinstance(h, HSet):
                 return z3.Select(h.has, self.key_term(item))
         raise Unsupported(f"membership in {container!r}")
@@ -1405,6 +1422,10 @@ class Exec(Path):
             a = self.unbox(a)
         if isinstance(b, VBox):
             b = self.unbox(b)
+        if isinstance(op, ast.Div) and isinstance(a, VRef):
+            ha = self.heap.get(a.rid)
+            if isinstance(ha, HObj) and isinstance(ha.cls, str) and ("obj:" + ha.cls, "__truediv__") in self.reg.methods:
+                return self.reg.methods[("obj:" + ha.cls, "__truediv__")](self, a, [b], {})
         # sequences
         if isinstance(op, ast.Add):
             if isinstance(a, VStr) and isinstance(b, VStr):
@@ -1913,6 +1934,9 @@ class Exec(Path):
             for wname, wtype in c.extra.get("exists", {}).items():
                 # names of the callee's own locals / ghosts that its postcondition mentions: existential witnesses here
                 self.env[wname] = self.make_symbolic(f"{info.name}_{wname}", wtype)
+                # ... and ghost locals of the caller (its own postcondition may mention them as its witnesses in turn)
+                if len(self.frames) >= 2:
+                    self.frames[-2].setdefault(wname, self.env[wname])
             result = self.make_symbolic("result_" + info.name, c.returns) if c.returns else VNone()
             self.env["result"] = result
             saved_old = self.old
@@ -1944,7 +1968,7 @@ class Exec(Path):
             if post:
                 post(self, bound, result)
             self.old = saved_old
-            if forked_check(self.solver, 2000) == z3.unsat:
+            if self.path_check() == z3.unsat:
                 # the callee's postcondition contradicts what is known at the call site (typically a missing `modifies`):
                 # continuing would make everything after this call vacuously true
                 raise ContractError(f"postcondition of {info.qualname} is contradictory at this call site (missing modifies?)")
@@ -1972,6 +1996,14 @@ class Exec(Path):
             if c is not None:
                 for g, gt in c.ghost.items():
                     if gt == "str" and g in self.frames[0]:
+                        out.append(self.frames[0][g])
+        elif typ in ("bytes", "int"):
+            # instances: the caller's own ghost constants of that type (proving the caller's clause for its arbitrary constant
+            # needs the callee's clause at exactly that constant)
+            c = top["contract"]
+            if c is not None:
+                for g, gt in c.ghost.items():
+                    if gt == typ and g in self.frames[0]:
                         out.append(self.frames[0][g])
         else:
             raise ContractError(f"ghost type {typ} not supported at call sites")
